@@ -160,10 +160,12 @@ CHECKS = {
          "gap, no overlap; literals fit) and exports them; a generic renderer that interprets the tables writes files of 15 "
          "formats from random tagged models (sizes/magnitudes chosen so that neighbouring fields touch, layout variants), the real "
          "readers load them and TLC validates that every attribute's relation descriptor is `same`. Gaussian log, ORCA output, "
-         "GAMESS punch, Q-Chem output and WFX files are rendered in the shape the programs print them; QCSchema.tla states where "
+         "GAMESS punch, Q-Chem output, WFX and CP2K ATOM output files are rendered in the shape the programs print them "
+         "(AtomOrbitals.tla: the cells of the loaded coefficient matrix on which each printed expansion coefficient must sit; "
+         "its filling-loop machine is model-checked and the cells found for tagged coefficients are validated); QCSchema.tla states where "
          "the loader must put the value of every key of a molecule document (attribute, extra, pass-through) and which omissions "
          "are errors or warnings, and TLC validates the placement observed for every generated key subset.",
-    note="the program-output renderers are transcriptions of sample outputs (no published column specification); CP2K output, WFN, MWFN have no rendered counterpart here (C01 compares corpus WFN/WFX/FCHK files with independent readers); molden/molekel are rendered in C05",
+    note="the program-output renderers are transcriptions of sample outputs (no published column specification); WFN has no rendered counterpart here (C01 compares corpus WFN/WFX/FCHK files with independent readers); molden/molekel are rendered in C05",
     technique="TLA+ layout tables (Layouts.tla) exported by TLC drive an independent writer; TLC validates relation descriptors of loaded objects"),
  "C04": dict(
     category="exploration", design_ref="DESIGN.md section 6 C04",
